@@ -242,8 +242,20 @@ def guard(ctx: Any) -> List[Ob]:
     hq_m = inc.methods.get('has_qu_question')
     flag = None
     if hq_m is not None:
-        rets = [self_attr(r.value, hq_m.params[0]) for r in walk_local_ordered(hq_m.node) if isinstance(r, ast.Return) and r.value is not None]
+        def _unwrap(v: ast.AST) -> ast.AST:
+            while isinstance(v, ast.Call) and isinstance(v.func, ast.Name) and v.func.id == 'bool' and len(v.args) == 1:
+                v = v.args[0]
+            return v
+
+        rvals = [_unwrap(r.value) for r in walk_local_ordered(hq_m.node) if isinstance(r, ast.Return) and r.value is not None]
+        rets = [self_attr(v, hq_m.params[0]) for v in rvals]
         flag = rets[0] if len(rets) == 1 else None
+        if flag is None and len(rvals) == 1:
+            # the predicate reads more than the one flag: whatever else makes it true widens the exemption from duplicate
+            # suppression beyond `a query containing a QU question` (a QM probe delivered twice is then defended twice)
+            from sa import StructuralViolation
+
+            raise StructuralViolation(hq_m.module.rel if hasattr(hq_m.module, 'rel') else 'src/zeroconf/_protocol/incoming.py', hq_m.qual, norm(rvals[0]), 'the QU predicate the duplicate guard consults is exactly the flag set while the question section is decoded', 'the predicate is a compound expression: the exemption of the guard covers more than queries with a QU question')
     if flag is None:
         raise AnalysisError('anchor vanished: the attribute returned by DNSIncoming.has_qu_question')
     setters = [g for g in inc.methods.values() if any(self_attr(t, g.params[0]) == flag and not (isinstance(st, ast.Assign) and isinstance(st.value, ast.Constant) and st.value.value is False) for t, st in attr_stores(g.node)) and g.name != '__init__']
